@@ -1178,6 +1178,9 @@ func davTargets(k, m int, odd bool) []target {
 		ts = append(ts, target{rs: []string{d2}, trailing: true})
 	}
 	ts = append(ts, target{isPath: true, path: "/./" + dn + "/../" + dn}, target{isPath: true, path: "//" + dn + "//"})
+	// a NUL byte in the path (%00 on the wire): localPath refuses it before looking at the tree
+	ts = append(ts, target{isPath: true, path: "/" + dn + "\x00"}, target{isPath: true, path: "/\x00/" + dn},
+		target{rs: []string{"mis\x00sing"}})
 	return ts
 }
 
